@@ -51,17 +51,35 @@ def status_domain_sim(prog):
 
 
 def status_atoms(cfg, nodes):
-    """{family text: {literal: [cond node]}} for atoms `<family> == 'LIT'` among the given nodes"""
+    """{family text: {frozenset of literals: [cond node]}} for atoms `<family> == 'LIT'` and
+    `<family> in ('A', 'B')` among the given nodes (a key is the set of values for which the atom is true)"""
     fam = {}
     for n in nodes:
         if n.kind != "cond":
             continue
         e = canon(n.exprs[0])
-        if isinstance(e, ast.Compare) and len(e.ops) == 1 and isinstance(e.ops[0], ast.Eq) \
-                and isinstance(e.comparators[0], ast.Constant) and isinstance(e.comparators[0].value, str) \
-                and isinstance(e.left, ast.Attribute) and e.left.attr in ("status", "order_status"):
-            fam.setdefault(utext(e.left), {}).setdefault(e.comparators[0].value, []).append(n)
+        if not (isinstance(e, ast.Compare) and len(e.ops) == 1 and isinstance(e.left, ast.Attribute)
+                and e.left.attr in ("status", "order_status")):
+            continue
+        r = e.comparators[0]
+        lits = None
+        if isinstance(e.ops[0], ast.Eq) and isinstance(r, ast.Constant) and isinstance(r.value, str):
+            lits = frozenset([r.value])
+        elif isinstance(e.ops[0], ast.In) and isinstance(r, (ast.Tuple, ast.List, ast.Set)) and r.elts and \
+                all(isinstance(x, ast.Constant) and isinstance(x.value, str) for x in r.elts):
+            lits = frozenset(x.value for x in r.elts)
+        if lits is not None:
+            fam.setdefault(utext(e.left), {}).setdefault(lits, []).append(n)
     return fam
+
+
+def _block_for(famtab, v):
+    """edges excluded when the family's value is v"""
+    blocked = set()
+    for lits, nodes in famtab.items():
+        for n in nodes:
+            blocked.add((n.id, "F" if v in lits else "T"))
+    return blocked
 
 
 def order_loop(func, var="order"):
@@ -128,7 +146,7 @@ def run(ctx, rep):
                 raise AnalysisError("%s: no report-status chain found in the per-order body" % f.qual)
             first = status_fams[0]
             dom = domains[cname]
-            covered = set(fam[first])
+            covered = set().union(*fam[first]) if fam[first] else set()
             rep.check(dom <= covered, "R1", key(f, None, "status chain covers %s" % sorted(dom)), f, w,
                       "branches on %s: %s" % (first, sorted(covered)))
             setters = [n for n in body_nodes
@@ -136,10 +154,7 @@ def run(ctx, rep):
             sids = [n.id for n in setters]
             for v in sorted(dom):
                 n_branches += 1
-                blocked = set()
-                for lit, nodes in fam[first].items():
-                    for n in nodes:
-                        blocked.add((n.id, "F" if lit == v else "T"))
+                blocked = _block_for(fam[first], v)
                 stranded = False
                 for x in exits:
                     if not cfg.all_paths_pass(enter.id, x.id, sids, blocked):
@@ -159,10 +174,7 @@ def run(ctx, rep):
                             ofam = fam[of[0]]
                             ok_all = True
                             for ov in ("PENDING", "EXPIRED", "EXECUTABLE", "EXECUTION_COMPLETE"):
-                                b2 = set(blocked)
-                                for lit, nodes in ofam.items():
-                                    for n in nodes:
-                                        b2.add((n.id, "F" if lit == ov else "T"))
+                                b2 = set(blocked) | _block_for(ofam, ov)
                                 st2 = any(not cfg.all_paths_pass(enter.id, x.id, sids, b2) for x in exits)
                                 if st2 and ov != "PENDING":
                                     ok_all = False
